@@ -339,3 +339,34 @@ Theorem C01_huffman_fse_weights_round_trip : forall maxLog log counts ws enc tai
   read_huf_weights maxLog (enc ++ tail) = weights_finish maxLog ws (lenN enc).
 Proof. exact read_fse_weights. Qed.
 Print Assumptions C01_huffman_fse_weights_round_trip.
+
+(* ---- composition of all the parts: a block with every entropy feature on (Huffman-compressed literals whose tree
+        description is FSE-compressed; three FSE_Compressed_Mode sequence tables), for ANY weights and normalised
+        distributions the description writers and the decoder's checks accept, decodes to the execution of its sequences.
+        The hypotheses are instantiated on every compressed block of every emitted frame by the per-run A-tie, which reads the
+        choices back with R and regenerates the block from them. ---- *)
+From ZV.Codec Require Import EncodeBlockFull.
+Theorem C01_fully_compressed_block_round_trip : forall strict window blockMax e x wlog wcounts ws treedesc wt all hlog sf lits litsec lllog llcounts dll tll oflog ofcounts dof tof mllog mlcounts dml tml qs stream x1 lits1 rep1,
+  (* the Huffman tree: any weights the description writer and the decoder's checks accept *)
+  enc_weights_fse wlog wcounts ws = Some treedesc -> build_dtable wlog wcounts = Ok wt -> nb_pos wt ->
+  wlog <= 6 -> lenN wcounts <= 256 -> Forall (fun c => (-1 <= c)%Z) wcounts -> (length ws <= 260)%nat ->
+  weights_finish LitHufLog ws (lenN treedesc) = Ok (all, hlog, lenN treedesc) ->
+  (* the literals section *)
+  sf < 4 -> lenN lits <= blockMax -> (sf = 0 \/ 6 <= lenN lits) ->
+  (forall part b, enc_huf1 (huf_tree all hlog) part = Some b -> lenN b < 65536) ->
+  enc_lits_huf 2 sf treedesc (huf_tree all hlog) lits = Some litsec ->
+  (* the three tables: any normalised distributions the description writer accepts *)
+  write_ncount lllog llcounts = Some dll -> build_dtable lllog llcounts = Ok tll -> lllog <= LLFSELog -> lenN llcounts <= MaxLL + 1 -> Forall (fun c => (-1 <= c)%Z) llcounts ->
+  write_ncount oflog ofcounts = Some dof -> build_dtable oflog ofcounts = Ok tof -> oflog <= OffFSELog -> lenN ofcounts <= MaxOff + 1 -> Forall (fun c => (-1 <= c)%Z) ofcounts ->
+  write_ncount mllog mlcounts = Some dml -> build_dtable mllog mlcounts = Ok tml -> mllog <= MLFSELog -> lenN mlcounts <= MaxML + 1 -> Forall (fun c => (-1 <= c)%Z) mlcounts ->
+  (* the sequences *)
+  qs <> [] -> lenN qs < 98048 ->
+  enc_seq_stream tll tof tml qs = Some stream ->
+  exec_seqs strict window blockMax qs (e_rep e) (x_block_start x) lits = Ok (x1, lits1, rep1) ->
+  x_blk x1 + lenN lits1 <= blockMax ->
+  exists bt, decode_cblock strict window blockMax e x (enc_cblock_parts litsec (lenN qs) 168 dll dof dml stream)
+             = Ok ({| e_huf := Some {| h_log := hlog; h_tree := huf_tree all hlog; h_weights := all |};
+                      e_ll := Some tll; e_of := Some tof; e_ml := Some tml; e_rep := rep1 |},
+                   push_fwd x1 lits1 (lenN lits1), bt).
+Proof. exact fully_compressed_block_round_trip. Qed.
+Print Assumptions C01_fully_compressed_block_round_trip.
